@@ -229,7 +229,7 @@ V(id='c33-atan-key-no-prec', prop='C33', file='mpmath/libmp/libelefun.py',
          ("        atan_taylor_cache[n, prec2] = (a, atan_a)", "        atan_taylor_cache[n] = (a, atan_a)")],
   expect='fire:D-R1b:atan_taylor_get_cached')
 V(id='c33-quad-nodes-key-no-prec', prop='C33', file='mpmath/calculus/quadrature.py',
-  old="        key = (a, b, degree, prec)", new="        key = (a, b, degree)",
+  old="        key = (a, b, type(a), type(b), degree, prec)", new="        key = (a, b, type(a), type(b), degree)",
   expect='fire:D-R1b:get_nodes')
 V(id='c33-gamma-taylor-reuse-lower', prop='C33', file='mpmath/libmp/gammazeta.py',
   old="        if cprec > prec:\n            coeffs", new="        if cprec != prec:\n            coeffs",
@@ -252,8 +252,8 @@ V(id='c33-constmemo-shift', prop='C33', file='mpmath/libmp/libelefun.py',
   old="            return f.memo_val >> (memo_prec-prec)", new="            return f.memo_val >> (memo_prec-prec-1)",
   expect='fire:D-R2:constant_memo.g')
 V(id='c33-lu-no-tag-gate', prop='C33', file='mpmath/matrices/linalg.py',
-  old="        if use_cache and isinstance(A, ctx.matrix) and A._LU and \\\n                A._LU_prec >= ctx.prec:",
-  new="        if use_cache and isinstance(A, ctx.matrix) and A._LU:",
+  old="        if use_cache and not overwrite and isinstance(A, ctx.matrix) and \\\n                A._LU and A._LU_prec >= ctx.prec:",
+  new="        if use_cache and not overwrite and isinstance(A, ctx.matrix) and A._LU:",
   expect='fire:D-LU:LU_decomp')
 V(id='c33-setrows-no-reset', prop='C33', file='mpmath/matrices/matrices.py',
   old="        self.__rows = value\n        self._LU = None\n", new="        self.__rows = value\n",
@@ -2706,4 +2706,27 @@ V(id='c15-mpc-outward-short-values-pass', prop='C15', file='mpmath/libmp/libmpi.
   expect='fire:C-R19c:mpc_outward')
 V(id='c15-benign-mpc-outward-more-allowance', prop='C15', file='mpmath/libmp/libmpi.py',
   old="    delta = (0, MPZ_ONE, max(mags) + 10 - wp, 1)\n", new="    delta = (0, MPZ_ONE, max(mags) + 12 - wp, 1)\n",
+  expect='silent')
+
+# ---- C33 third hunt: D-R1h, D-R1i, D-LU3 (fixes f600a39, d02ed8e, 3aaf313, bfc92df) ----
+V(id='c33-quad-node-key-without-types', prop='C33', file='mpmath/calculus/quadrature.py',
+  old="        key = (a, b, type(a), type(b), degree, prec)\n", new="        key = (a, b, degree, prec)\n",
+  expect='fire:D-R1h:get_nodes')
+V(id='c33-quad-node-key-one-type-only', prop='C33', file='mpmath/calculus/quadrature.py',
+  old="        key = (a, b, type(a), type(b), degree, prec)\n", new="        key = (a, b, type(a), degree, prec)\n",
+  expect='fire:D-R1h:get_nodes')
+V(id='c33-memoize-key-without-types', prop='C33', file='mpmath/ctx_base.py',
+  old="            key = key, tuple(type(v) for v in args), \\\n                tuple(type(v) for v in kwargs.values())\n", new="",
+  expect='fire:D-R1h:f_cached')
+V(id='c33-memoize-key-keyword-types-missing', prop='C33', file='mpmath/ctx_base.py',
+  old="            key = key, tuple(type(v) for v in args), \\\n                tuple(type(v) for v in kwargs.values())\n", new="            key = key, tuple(type(v) for v in args)\n",
+  expect='fire:D-R1h:f_cached')
+V(id='c33-stieltjes-equal-object-not-canonicalised', prop='C33', file='mpmath/functions/zeta.py',
+  old="        # (also for a complex 1+0j: the value, and what is cached, is real)\n        a = ctx.one\n", new="",
+  expect='fire:D-R1i:stieltjes')
+V(id='c33-lu-cache-ignores-overwrite', prop='C33', file='mpmath/matrices/linalg.py',
+  old="        if use_cache and not overwrite and isinstance(A, ctx.matrix) and \\\n", new="        if use_cache and isinstance(A, ctx.matrix) and \\\n",
+  expect='fire:D-LU3:LU_decomp')
+V(id='c33-benign-quad-node-key-types-first', prop='C33', file='mpmath/calculus/quadrature.py',
+  old="        key = (a, b, type(a), type(b), degree, prec)\n", new="        key = (type(a), type(b), a, b, degree, prec)\n",
   expect='silent')
